@@ -22,7 +22,9 @@ def run(c):
               "positions of counter, values, histogram values and weights; both-set; empty; unknown/draft/legacy/duplicate/garbage tag "
               "names; unmapped/padded/invalid-UTF-8/corrupted/raw tag values; not-found/disabled metric; timestamps around now+3) run "
               "through the real Agent.Map/MapEnvironment + Agent.ApplyMetric; after every event all rows of all shard buckets are "
-              "compared with the model. non-trivial = the case contains both an event rejected by tag/number validation and an "
+              "compared with the model; every event is also applied to a second agent of the same case running with Config.LegacyApplyValues "
+              "(MultiValue.ApplyValuesLegacy), whose rows are compared with the model's legacy mode and, row by row (count, sum), with the "
+              "default-mode agent. non-trivial = the case contains both an event rejected by tag/number validation and an "
               "accepted event that changed a metric row; distinct by op-sequence hash")
     c.assumptions += [
         "worker.fillTime/fillMetricMeta (cmd/statshouse, package main) are not linked: the harness sets the header fields they set "
@@ -89,7 +91,11 @@ META = {
              "min ≠ max) (applyAll_row_td, evFn_td_values). (11) Every status row over every event list, warnings and clamped-future "
              "included: count = old + Σ over events of the status records written to it + the first shard's clamped-future warning "
              "(applyEvent_status_row, applyAll_status_row, applyAllH_status_row, clampHit_code; the second shard never writes that warning: "
-             "resolveTs_second_not_clamped)."),
+             "resolveTs_second_not_clamped). (12) Agent configuration: the legacy value-application mode (Config.LegacyApplyValues, "
+             "MultiValue.ApplyValuesLegacy) is modelled (Cfg.legacy, valuesFn) and all row/status theorems above hold in both modes; "
+             "legacy_eq_default: for every row and every argument both modes give the same count, sum, min, max, sum of squares and unique "
+             "set (identical rows for metrics without percentiles); legacy_rows_eq_default: over every event list the two agents' rows "
+             "agree in all of these, i.e. same count and average; only the TDigest flag differs (evFn_td_values_legacy: old || pct)."),
     "note": ("Trusted: Lean kernel; the correspondence on generated cases (quick 4000, thorough 40000 cases of 1-6 events, all sharding "
              "strategies); the harness' emulation of worker.fillTime/fillMetricMeta; helper functions treated as inputs (tag lookup, string "
              "normalisation, raw parsers, mapping cache, xxh3 of the key). Exact arithmetic only (no float rounding). Store-level theorems "
